@@ -722,6 +722,37 @@ def gen_burst(rng, period, nclients):
     return sched
 
 
+def gen_dense(rng, period, k):
+    """k clients connected from the start; readers poll in the middle of the publications (between
+    the publisher's clear and put, between two clients' puts), some leave or join meanwhile"""
+    sched = [('S', c, 0) for c in range(1, k + 1)]
+    live = list(range(1, k + 1))
+    nxt = k + 1
+    lazy = set(c for c in live if rng.random() < 0.3)
+    for rnd in range(rng.randrange(2, 5)):
+        n = 0
+        while n < 3 * len(live) + 12:
+            r = rng.random()
+            if r < 0.6 or not live:
+                sched.append(('P',))
+                n += 1
+            elif r < 0.92:
+                c = rng.choice(live)
+                if c not in lazy or rng.random() < 0.1:
+                    sched.append(('G', c))
+            elif r < 0.96:
+                c = rng.choice(live)
+                live.remove(c)
+                sched.append(('C', c))
+            else:
+                sched.append(('S', nxt, 0))
+                live.append(nxt)
+                nxt += 1
+        sched += [('P',)] * (3 * (period - 1) - rng.randrange(0, 9))
+    sched += [('P',)] * (3 * len(live) + 8)
+    return sched
+
+
 def gen_exhaustive(period, pub_steps):
     """every interleaving of two clients' [connect, close] with `pub_steps` publisher steps"""
     a = [('S', 1, 0), ('C', 1)]
@@ -773,7 +804,7 @@ def all_schedules(ctx, period, for_oracle):
     s += [('G', 1), ('G', 1), ('C', 1)] + [('P',)] * (3 * period) + [('G', 2), ('F', 2)] + [('P',)] * 10
     scheds.append(('slow', s))
     # exhaustive small interleavings
-    ex = list(gen_exhaustive(period, 7))
+    ex = list(gen_exhaustive(period, ctx.n(7, 10)))
     if for_oracle:
         take = ex if not ctx.quick() else rng.sample(ex, 600)
     else:
@@ -783,6 +814,8 @@ def all_schedules(ctx, period, for_oracle):
         scheds.append(('random', gen_random(rng, period, rng.randrange(1, 9), rng.randrange(20, 160))))
     for _ in range(ctx.n(40, 800) if not for_oracle else ctx.n(100, 2000)):
         scheds.append(('burst', gen_burst(rng, period, rng.randrange(2, 12))))
+    for _ in range(ctx.n(40, 800) if not for_oracle else ctx.n(100, 2000)):
+        scheds.append(('dense', gen_dense(rng, period, rng.randrange(1, 6))))
     return scheds
 
 
@@ -811,6 +844,8 @@ def correspondence(ctx):
             if taken:
                 ctx.nontriv(tuple(sched))
             ctx.count('steps', sum(len(t['ops']) for t in trace))
+            for k, v in trace_features(trace).items():
+                ctx.count(k, v)
         ctx.sample(cases[0][:600])
         ctx.run_cases('publisher', 'From DS Require Import Model.PubModel Corr.PubCorr.', 'pcase',
                       'ok', cases, show='show', shard=ctx.n(20, 60))
@@ -827,6 +862,7 @@ def check_trace(trace, facts):
     tick = 0
     posted = {}         # c -> tick of system.subscribe
     unposted = set()    # system.unsubscribe called
+    unposted_tick = {}
     taken = set()       # returned by subscribe_q.get_nowait
     removed = set()     # returned by unsubscribe_q.get_nowait
     lastput = {}        # c -> newest frame put and not yet read
@@ -851,6 +887,7 @@ def check_trace(trace, facts):
                 if c not in posted or c in unposted:
                     return ('handler_program_order', 'client %d unsubscribed out of order' % c, i)
                 unposted.add(c)
+                unposted_tick[c] = tick
             elif k == 'get':
                 c, f = op[1], op[2]
                 if c not in posted or c in unposted:
@@ -878,10 +915,15 @@ def check_trace(trace, facts):
                     served = None
                     pub_frame = None
                     tick += 1
-                    late = sorted(c for c in posted if c not in taken and tick >= posted[c] + TAKEUP_TICKS + 1)
+                    late = sorted(c for c in posted if c not in taken and tick >= posted[c] + TAKEUP_TICKS)
                     if late:
                         return ('takeup_late', 'clients %s subscribed during tick %d are still waiting '
                                 'when tick %d begins' % (late, posted[late[0]], tick), i)
+                    late = sorted(c for c in unposted if c not in removed
+                                  and tick >= unposted_tick[c] + TAKEUP_TICKS)
+                    if late:
+                        return ('unsubscribe_late', 'clients %s unsubscribed during tick %d are still '
+                                'subscribed when tick %d begins' % (late, unposted_tick[late[0]], tick), i)
                 elif ev[0] == 'S' and ev[1] is not None:
                     taken.add(ev[1])
                 elif ev[0] == 'U' and ev[1] is not None:
@@ -908,6 +950,9 @@ def check_trace(trace, facts):
                         newest = f
                     if f != pub_frame:
                         return ('stale_frame', 'frames %d and %d in one publication' % (pub_frame, f), i)
+                    if f != op[3]:
+                        return ('stale_frame', 'frame %d published after update_status number %d'
+                                % (f, op[3]), i)
                     if c in served:
                         return ('two_frames', 'client %d served twice in one publication' % c, i)
                     served.add(c)
@@ -936,11 +981,55 @@ def check_trace(trace, facts):
     for c, s in facts.get('sent', {}).items():
         if s != recv.get(c, []):
             return ('client_frame', 'client %d passed %r to its socket but read %r' % (c, s, recv.get(c)), len(trace))
+    for c, d in facts.get('done', {}).items():
+        if d and c in posted and c not in unposted:
+            return ('handler_no_unsubscribe', 'handler of client %d returned without unsubscribing' % c,
+                    len(trace))
     for c, e in facts.get('handler_errors', []):
         return ('handler_died', 'handler of client %d ended with %s' % (c, e), len(trace))
     if facts.get('order_violations'):
         return ('handler_program_order', repr(facts['order_violations'][0]), len(trace))
     return None
+
+
+def trace_features(trace):
+    """how often the interesting interleavings occur (for the evidence file)"""
+    feat = dict(stale_frame_replaced=0, read_between_clear_and_put=0, unsubscribed_before_takeup=0,
+                left_within_one_tick=0, publications_with_subscribers=0)
+    taken, posted_tick, tick = set(), {}, 0
+    cleared = None
+    in_pub = False
+    for t in trace:
+        for op in t['ops']:
+            if op[0] == 'sub':
+                posted_tick[op[1]] = tick
+            elif op[0] == 'unsub':
+                if op[1] not in taken:
+                    feat['unsubscribed_before_takeup'] += 1
+                if posted_tick.get(op[1]) == tick:
+                    feat['left_within_one_tick'] += 1
+            elif op[0] == 'get':
+                if cleared == op[1]:
+                    feat['read_between_clear_and_put'] += 1
+            elif op[0] == 'pub':
+                ev = op[1]
+                if ev[0] == 'T':
+                    tick += 1
+                    in_pub = False
+                elif ev[0] == 'S' and ev[1] is not None:
+                    taken.add(ev[1])
+                elif ev[0] == 'C':
+                    if ev[2] is not None:
+                        feat['stale_frame_replaced'] += 1
+                        cleared = None
+                    else:
+                        cleared = ev[1]
+                elif ev[0] == 'P':
+                    cleared = None
+                    if not in_pub:
+                        feat['publications_with_subscribers'] += 1
+                        in_pub = True
+    return feat
 
 
 def shrink(env, sched, klass):
